@@ -18,10 +18,10 @@ import (
 // Entry is one valid encoding.
 type Entry struct {
 	Name   string
-	Enc    []byte     // complete encoding including the token byte
-	Ctx    []byte     // encoding of the format package a ROW / PARAMS / ORDERBY needs before it (or nil)
-	Origin string     // "ref" (reference encoder) or "lib" (written by the library itself)
-	Ref    tdspkg.Pkg // reference package (Origin "ref")
+	Enc    []byte      // complete encoding including the token byte
+	Ctx    []byte      // encoding of the format package a ROW / PARAMS / ORDERBY needs before it (or nil)
+	Origin string      // "ref" (reference encoder) or "lib" (written by the library itself)
+	Ref    tdspkg.Pkg  // reference package (Origin "ref")
 	Lib    tds.Package // library package the encoding was written from (Origin "lib")
 }
 
@@ -38,6 +38,10 @@ func Parse(e Entry, data []byte) (tds.Package, error) {
 	}
 	return parseOne(data, ctx)
 }
+
+// ParseNext decodes one package the way the channel does it, with the package
+// decoded before it (a format, or the previous row) as its context.
+func ParseNext(data []byte, prev tds.Package) (tds.Package, error) { return parseOne(data, prev) }
 
 func parseOne(data []byte, ctx tds.Package) (tds.Package, error) {
 	if len(data) == 0 {
